@@ -77,7 +77,7 @@ join_same_entries(econf_file *ef)
 	  {
 	    /* removing leading spaces */
 	    while(isspace(*post)) post++;
-	    ret = asprintf(&(ef->file_entry[i].value), "%s\n%s", pre,
+	    ret = asprintf(&(ef->file_entry[i].value), "%s\n%s", pre ? pre : "",
 			   post);
 	    if(ret<0)
 	      return ECONF_NOMEM;
@@ -154,8 +154,8 @@ store (econf_file *ef, const char *group, const char *key,
     }
 
     char *content = ef->file_entry[ef->length-1].value;
-    int ret = asprintf(&(ef->file_entry[ef->length-1].value), "%s\n%s", content,
-	     value);
+    int ret = asprintf(&(ef->file_entry[ef->length-1].value), "%s\n%s",
+		       content ? content : "", value);
     if(ret<0)
       return ECONF_NOMEM;
     free(content);
